@@ -323,10 +323,14 @@ def handleAll (c : Case) : Res := Id.run do
       if infoRaw < 0 then return Res.propFalse s!"step {k} ({fact}): info = {infoRaw} on legal arguments" tg
       if info > n + 1 then return Res.propFalse s!"step {k} ({fact}): info = {info} (memory failure) although storage is ample" tg
       -- storage, Prop: what was handed to writers lies inside the caller's work area
+      -- the length of the work area is an argument of every call (a refactorization may be told a smaller one)
+      let lworkK : Int := if (sc.p "lwork" "") == "" then memC.lwork else sc.pInt "lwork"
+      if sc.pInt "oob" ≠ 0 then
+        return Res.propFalse s!"step {k} ({fact}): storage: {sc.pInt "oob"} byte(s) beyond work + lwork (lwork = {lworkK} for this call, {memC.lwork} for the first) were written" tg
       for nm in ["mem.first", "mem.out"] do
         match memRec sc nm with
         | some a =>
-          match propConfined memW memC.lwork a with
+          match propConfined memW lworkK a with
           | some msg => return Res.propFalse s!"step {k} ({fact}): storage: {nm}: {msg}" tg
           | none => pure ()
         | none => pure ()
@@ -432,7 +436,7 @@ def handleAll (c : Case) : Res := Id.run do
           | none => pure ()
         if corrMsg.isNone ∧ fact == "R" then
           nReuseInit := nReuseInit + 1
-          match corrReuseInit memC ain afirst with
+          match corrReuseInit { memC with lwork := (if (sc.p "lwork" "") == "" then memC.lwork else sc.pInt "lwork") } ain afirst with
           | some msg => corrMsg := some s!"step {k} (R): storage: {msg}"
           | none => pure ()
         if corrMsg.isNone then
